@@ -1,5 +1,6 @@
 import QM.ConvShape
 import QM.ConvFrame
+import QM.ConvKeys
 /-! # C07 — user sections pass through unchanged; the Quadlet section is kept as X-<name>
 
 Statements are about the ordered-multimap model of the unit (`MM.entriesOf svc S` = the entries of section `S`
@@ -112,5 +113,54 @@ theorem C07_build_sections (E : Env) (path : Str) (u svc : SUnit) (hnd : (u.map 
 theorem C07_container_sections (E : Env) (path : Str) (u svc : SUnit) (link : Option (Str × Str)) (hnd : (u.map Prod.fst).Nodup)
     (h : fromContainer E path u = some (.ok (svc, link))) : SectionsKept u svc (s "Container") (s "X-Container") :=
   sections_of_frame path u svc _ _ hnd (by decide) (by decide) (by decide) (frame_fromContainer E path u svc link h)
+
+
+/-! ### inside [Unit] and [Service]: keys the generator does not manage
+
+`Cv.managed` (QM/ConvKeys.lean) lists the (section, key) pairs some converter writes.  For every other pair — every
+other key of [Unit], [Service] and of any foreign section — the service has **exactly** the user's entries of that key,
+with their exact raw values and in their order, for every unit and every successful conversion by any of the
+converter models.  Proved by a key-level frame calculus (`KeepsOther`): every primitive (`add`, `set`, `prepend`,
+`add_raw`) touches one managed pair; every handler, the monadic folds and the seven converters compose them. -/
+
+def UnmanagedKept (u svc : SUnit) (own xown : Str) : Prop :=
+  ∀ S k, (S, k) ∉ managed → S ∉ [own, xown, s "Quadlet", s "X-Quadlet"] → keyEntries svc S k = keyEntries u S k
+
+theorem C07_volume_keys (E : Env) (path : Str) (u svc : SUnit) (n : Str) (hnd : (u.map Prod.fst).Nodup)
+    (h : fromVolume E path u = .ok (svc, n)) : UnmanagedKept u svc (s "Volume") (s "X-Volume") :=
+  fun S k hk hS => unmanaged_of_keys (startService path u) u svc _ _ (by decide) (keys_startService path u hnd)
+    (keys_fromVolume E path u svc n h) S k hk hS
+theorem C07_network_keys (E : Env) (path : Str) (u svc : SUnit) (n : Str) (hnd : (u.map Prod.fst).Nodup)
+    (h : fromNetwork E path u = .ok (svc, n)) : UnmanagedKept u svc (s "Network") (s "X-Network") :=
+  fun S k hk hS => unmanaged_of_keys (startService path u) u svc _ _ (by decide) (keys_startService path u hnd)
+    (keys_fromNetwork E path u svc n h) S k hk hS
+theorem C07_pod_keys (E : Env) (path : Str) (u svc : SUnit) (cs : List Str) (hnd : (u.map Prod.fst).Nodup)
+    (h : fromPod E path u cs = .ok svc) : UnmanagedKept u svc (s "Pod") (s "X-Pod") :=
+  fun S k hk hS => unmanaged_of_keys (startService path u) u svc _ _ (by decide) (keys_startService path u hnd)
+    (keys_fromPod E path u svc cs h) S k hk hS
+theorem C07_kube_keys (E : Env) (path : Str) (u svc : SUnit) (hnd : (u.map Prod.fst).Nodup)
+    (h : fromKube E path u = .ok svc) : UnmanagedKept u svc (s "Kube") (s "X-Kube") :=
+  fun S k hk hS => unmanaged_of_keys (startService path u) u svc _ _ (by decide) (keys_startService path u hnd)
+    (keys_fromKube E path u svc h) S k hk hS
+theorem C07_build_keys (E : Env) (path : Str) (u svc : SUnit) (hnd : (u.map Prod.fst).Nodup)
+    (h : fromBuild E path u = .ok svc) : UnmanagedKept u svc (s "Build") (s "X-Build") :=
+  fun S k hk hS => unmanaged_of_keys (buildStart path u) u svc _ _ (by decide) (keys_buildStart path u hnd)
+    (keys_fromBuild E path u svc h) S k hk hS
+theorem C07_container_keys (E : Env) (path : Str) (u svc : SUnit) (link : Option (Str × Str)) (hnd : (u.map Prod.fst).Nodup)
+    (h : fromContainer E path u = some (.ok (svc, link))) : UnmanagedKept u svc (s "Container") (s "X-Container") :=
+  fun S k hk hS => unmanaged_of_keys (startService path u) u svc _ _ (by decide) (keys_startService path u hnd)
+    (keys_fromContainer E path u svc link h) S k hk hS
+
+theorem C07_image_keys (E : Env) (path : Str) (u svc : SUnit) (r : Str) (hnd : (u.map Prod.fst).Nodup)
+    (h : fromImage E path u = .ok (svc, r)) : UnmanagedKept u svc (s "Image") (s "X-Image") := by
+  have hk : KeepsOther (preOf (startService path u) (s "Image") (s "X-Image")) svc := by
+    rw [fromImage_ok E path u svc r h]
+    unfold imageSvc
+    exact ((kk_addS _ _ _ _).trans (kk_addEntry _ _ _ _)).trans (kk_oneShot _ _)
+  exact fun S k hk' hS => unmanaged_of_keys (startService path u) u svc _ _ (by decide) (keys_startService path u hnd) hk S k hk' hS
+
+/-- non-vacuity: `Restart=` … no: `TimeoutStartSec`, `Description`, `Documentation`, `ExecReload`, `User` are not managed -/
+example : (s "Service", s "TimeoutStartSec") ∉ managed ∧ (s "Unit", s "Description") ∉ managed ∧ (s "Unit", s "Documentation") ∉ managed
+    ∧ (s "Service", s "ExecReload") ∉ managed ∧ (s "Install", s "WantedBy") ∉ managed := by decide
 
 end Cv
